@@ -182,7 +182,7 @@ func (x *woff) create(path string) error {
 	pd := make([]float64, x.nbases*nsamples)
 	bd := make([]float64, x.nbases*nsamples)
 	for i := range pd {
-		if x.nbases > 200 {
+		if x.nbases > 100 {
 			break // many coefficients: all-zero matrices keep the rendered header short
 		}
 		pd[i] = float64(i % 4)
